@@ -38,6 +38,7 @@ var scenarios = []scenario{
 	{"3x1-roll", []int{3}, [][]int{{60}, {30}, {3}}},
 	{"exact-fit", []int{34}, [][]int{{30}, {1}}}, // 34+30 fills the page exactly, the next byte must roll
 	{"one-over", []int{35}, [][]int{{30}, {64}}}, // 35+30 = page size + 1 must roll; 64 = a whole page
+	{"empty", []int{3}, [][]int{{0, 3}, {30}}},   // an empty message is a message: it takes a sequence and reads back empty
 	// a negative size is a reader scan: AppendedSeq(), then Get of every sequence up to it
 	{"2x1+reader", nil, [][]int{{3}, {30}, {-1, -1}}},
 	{"roll+reader", []int{30}, [][]int{{60}, {-1, -1}}},
@@ -564,7 +565,7 @@ func main() {
 		bound = -1 // unbounded: every schedule
 	}
 	rep.Bounds["preemption_bound"] = bound
-	rep.Rule = fmt.Sprintf("scenarios: 2-3 appender threads with 1-2 appends each, sizes from {3,30,60} against a 64-byte data page and 4 index items per page (roll-over of both reachable), optional sequential preload; every schedule with <=%d preemptions (-1 = unbounded) (points: every lock/atomic op of pkg/queue, pkg/queue/page and every store into a page); after each schedule: close/reopen/append/reopen on the live directory; a crash image is taken after every store of every schedule and of the reopen phase, every distinct (image bytes, returned appends, in-flight appends) is recovered by the real NewQueue, read back, appended to, reopened. distinct_nontrivial = distinct crash images recovered + schedules with >=1 context switch", bound)
+	rep.Rule = fmt.Sprintf("scenarios: 2-3 appender threads with 1-2 appends each, sizes from {0,1,3,30,34,35,60,64} against a 64-byte data page and 4 index items per page (roll-over of both reachable), optional sequential preload; every schedule with <=%d preemptions (-1 = unbounded) (points: every lock/atomic op of pkg/queue, pkg/queue/page and every store into a page); after each schedule: close/reopen/append/reopen on the live directory; a crash image is taken after every store of every schedule and of the reopen phase, every distinct (image bytes, returned appends, in-flight appends) is recovered by the real NewQueue, read back, appended to, reopened. distinct_nontrivial = distinct crash images recovered + schedules with >=1 context switch", bound)
 	for si, sc := range scs {
 		sc := sc
 		e := &vsched.Explorer{Bound: bound, Horizon: 200000, Body: body(sc), Shard: f.Shard, Shards: f.Shards, Deadline: f.Deadline}
